@@ -83,12 +83,14 @@ implement_decode_from_on_numeric_primitive_type! {f64, "Decodes a [`f64`] from 8
 // TODO this isn't great. It assumes `T` is a signed integer, and has a size less than `u32::MAX`. For sane users,
 // these will always be true. But if these assumptions don't hold, the 'min' and 'max' this reports will be wrong.
 fn varint_range_error<T>(value: i64) -> Error {
-    let size = core::mem::size_of::<T>() as u32;
-    let shift_count = i128::BITS - (size * 8);
+    // `T` isn't necessarily an integer type: it can be zero-sized, or larger than the 128 bits this error can report.
+    // So the bit-width is capped, and the shifts are checked; otherwise decoding into such a type could panic here.
+    let bit_count = core::mem::size_of::<T>().saturating_mul(8).min(128) as u32;
+    let shift_count = i128::BITS - bit_count;
     let error = InvalidDataErrorKind::OutOfRange {
         value: value as i128,
-        min: i128::MIN >> shift_count,
-        max: i128::MAX >> shift_count,
+        min: i128::MIN.checked_shr(shift_count).unwrap_or(0),
+        max: i128::MAX.checked_shr(shift_count).unwrap_or(0),
         typename: core::any::type_name::<T>(),
     };
     error.into()
@@ -98,12 +100,14 @@ fn varint_range_error<T>(value: i64) -> Error {
 // TODO this isn't great. It assumes `T` is an unsigned integer, and has a size less than `u32::MAX`. For sane users,
 // these will always be true. But if these assumptions don't hold, the 'min' and 'max' this reports will be wrong.
 fn varuint_range_error<T>(value: u64) -> Error {
-    let size = core::mem::size_of::<T>() as u32;
-    let shift_count = u128::BITS - (size * 8);
+    // `T` isn't necessarily an integer type: it can be zero-sized, or larger than the 127 bits this error can report.
+    // So the bit-width is capped, and the shift is checked; otherwise decoding into such a type could panic here.
+    let bit_count = core::mem::size_of::<T>().saturating_mul(8).min(127) as u32;
+    let shift_count = u128::BITS - bit_count;
     let error = InvalidDataErrorKind::OutOfRange {
         value: value as i128,
         min: 0,
-        max: (u128::MAX >> shift_count) as i128,
+        max: u128::MAX.checked_shr(shift_count).unwrap_or(0) as i128,
         typename: core::any::type_name::<T>(),
     };
     error.into()
